@@ -1,4 +1,6 @@
 import BreezyVerif.Lemmas.C22Main
+import BreezyVerif.Lemmas.C22Remote
+import BreezyVerif.Lemmas.C22Spec
 /-!
 C22 — theorems.  All graphs (`wf` = the revisions are numbered topologically,
 which every finite DAG admits), all tips, all specifier strings; no bound on
@@ -487,6 +489,281 @@ theorem spec_ancestor (b : Branch) (a o x : Nat) (loc : List Char) (nm : String)
       Bool.not_eq_true] at hxh
     exact hxh c hc hcx
 
+/-! ### the helper-level specifier theorems are about what `as_revision_id` computes -/
+
+theorem classify_revno (r : List Char) : classify (pRevno ++ r) = (.revno, r) := classify_pRevno r
+
+theorem classify_last (r : List Char) : classify (pLast ++ r) = (.last, r) := by
+  simp [classify, prefixes, stripPrefix?, pRevno, pRevid, pLast, List.findSome?]
+
+/-- `revno:N`, `revno:-N`, `revno:a.b.c` → `spec_neg`, `get_rev_id_nth`, `dotted_roundtrip` apply to `as_revision_id` -/
+theorem spec_revno_as_revision_id (b : Branch) (fuel : Nat) (r : List Char) :
+    asRevId b (fuel + 1) (pRevno ++ r) = (b.revnoLookup r).bind fun v => pure v.2 := by
+  rw [asRevId]; simp only [classify_revno]; rfl
+
+/-- `last:N` → `spec_last` applies to `as_revision_id` -/
+theorem spec_last_as_revision_id (b : Branch) (fuel : Nat) (r : List Char) :
+    asRevId b (fuel + 1) (pLast ++ r) = (b.lastLookup r).bind fun v => pure v.2 := by
+  rw [asRevId]; simp only [classify_last]; rfl
+
+/-- `mainline:S` is `find_lefthand_merger` of what S names → `spec_mainline` applies to `as_revision_id` -/
+theorem spec_mainline_as_revision_id (b : Branch) (fuel : Nat) (r : List Char) (hb : specGetBranch r = false) :
+    asRevId b (fuel + 1) (pMainline ++ r) = (asRevId b fuel r).bind fun id =>
+      match findLefthandMerger b id with
+      | some m => pure m
+      | none => .error .invalidRevisionSpec := by
+  rw [asRevId_mainline b fuel _ r (classify_mainline r)]
+  simp only [hb, Bool.false_eq_true, if_false]
+  rfl
+
+/-- `ancestor:LOC` → `spec_ancestor` applies to `as_revision_id` -/
+theorem spec_ancestor_as_revision_id (b : Branch) (fuel : Nat) (loc : List Char) :
+    asRevId b (fuel + 1) (pAncestor ++ loc) = b.ancestorLookup loc := by
+  rw [asRevId]; simp only [classify_ancestor]
+
+/-! ## the two entry points of a specifier, and the fuel of the model -/
+
+theorem fuelFor_ge (s : List Char) : s.length + 7 ≤ fuelFor s := by unfold fuelFor; omega
+
+theorem clean_of_mainlineClean (b : Branch) (hc : mainlineClean b = true) : ChainClean b.g b.history := by
+  intro x hx hl
+  have := (List.all_eq_true.mp hc) x hx
+  simp only [hl, Option.isSome_none, Bool.false_or, List.isEmpty_iff] at this
+  exact this
+
+/-- **The fuel of the model never decides an answer**: from `length + 7` on (the
+model runs with `3 · length + 8`) every further unit of fuel leaves
+`in_history` and `as_revision_id` unchanged, for every branch and every string. -/
+theorem fuel_adequate (b : Branch) (s : List Char) (k : Nat) :
+    inHist b (s.length + 7 + k) s = inHist b (s.length + 7) s ∧
+    asRevId b (s.length + 7 + k) s = asRevId b (s.length + 7) s := by
+  obtain ⟨stA, _, stH⟩ := stable_all b s.length s (Nat.le_refl _)
+  induction k with
+  | zero => exact ⟨rfl, rfl⟩
+  | succ k ih =>
+    rw [show s.length + 7 + (k + 1) = (s.length + 7 + k) + 1 from rfl, stH _ (by omega), stA _ (by omega)]
+    exact ih
+
+/-- **`in_history` and `as_revision_id` name the same revision**, for every
+specifier string (nested `before:` / `mainline:`, numbers, dotted numbers,
+`last:`, `tag:`, `ancestor:`, `revid:` and the prefix-less forms): whenever
+`RevisionSpec.from_string(s).in_history(b)` answers, `as_revision_id(b)` answers
+the same revision id.  The interesting step is `before:`, where `in_history`
+uses the mainline shortcut (revno − 1) and `as_revision_id` the left-hand parent
+in the graph (`get_rev_id_pred_is_left_parent`, and the root of a clean
+mainline has no parent at all). -/
+theorem in_history_as_revision_id_agree (b : Branch) (hw : wf b.g = true)
+    (htip : ∀ t, b.tip = some t → t < b.g.length) (hc : mainlineClean b = true) (s : String) (i : Info)
+    (h : b.inHistory s = .ok i) : b.asRevisionId s = .ok i.revId :=
+  ((agree_all b ((wf_iff _).mp hw) htip (clean_of_mainlineClean b hc) s.toList.length s.toList (Nat.le_refl _)
+    (fuelFor s.toList) (fuelFor_ge _) i).2 h)
+
+/-- **The revno `in_history` reports is the revno of the revision it reports**:
+number → identifier gives back the identifier; and when it reports no revno the
+revision is not on the mainline. -/
+theorem in_history_revno_coherent (b : Branch) (s : String) (i : Info) (h : b.inHistory s = .ok i) :
+    (∀ n, i.revno = some n → b.getRevId n = .ok i.revId) ∧ (i.revno = none → b.lazyRevno i.revId = none) :=
+  ⟨(matchOn_inHist_coh b _ _ i).2 h, (matchOn_inHist_cohNone b _ _ i).2 h⟩
+
+-- non-vacuity: a nested specifier on a history with a merge
+example : Branch.inHistory { g := [[], [0], [0], [1, 2], [3]], tip := some 4 } "before:before:mainline:1.1.1" =
+    .ok ⟨some 1, .rev 0⟩ := by decide
+example : Branch.asRevisionId { g := [[], [0], [0], [1, 2], [3]], tip := some 4 } "before:before:mainline:1.1.1" =
+    .ok (.rev 0) := by decide
+
+/-! ## stacked branches served by the smart server (`Model/C22Remote.lean`) -/
+
+theorem getElem?_takeWhile_length {α : Type} (p : α → Bool) : ∀ (l : List α) (y : α),
+    l[(l.takeWhile p).length]? = some y → p y = false
+  | [], _, h => by simp at h
+  | a :: l, y, h => by
+    by_cases ha : p a = true
+    · rw [List.takeWhile_cons_of_pos ha, List.length_cons, List.getElem?_cons_succ] at h
+      exact getElem?_takeWhile_length p l y h
+    · rw [List.takeWhile_cons_of_neg ha] at h
+      simp only [List.length_nil, List.getElem?_cons_zero, Option.some.injEq] at h
+      subst h
+      simpa using ha
+
+/-- **A `history-incomplete` answer names a true (revno, revision) pair of the
+same history.**  `Repository.get_rev_id_for_revno` on a repository that stores
+the known revision `x` (revno `k`) but runs out of left-hand history `H` before
+the wanted distance `d`: the pair it hands to the fallbacks is a revision `y`
+further down the same history together with ITS revno (`k - j` for the `j`-th
+ancestor), it is strictly nearer to the wanted revision, and it is the first
+revision the repository does not store. -/
+theorem history_incomplete_pair (g : Graph) (R : List Nat) (H : List Nat) (x : Nat) (rest : List Nat) (k : Int)
+    (d : Nat) (k' : Int) (y : Nat) (hch : isLeftChain g H = true) (hH : H = x :: rest)
+    (hx : stores g R x = true) (hd : d < H.length) (h : walkFor g R d x k = .incomplete k' y) :
+    ∃ j, 0 < j ∧ j < d ∧ H[j]? = some y ∧ k' = k - (j : Int) ∧ stores g R y = false ∧
+      ∀ i, i < j → ∃ z, H[i]? = some z ∧ stores g R z = true := by
+  by_cases hle : d ≤ (H.takeWhile (stores g R)).length
+  · rw [walkFor_found g R d H x rest k _ hch hH hle (List.getElem?_eq_getElem hd)] at h
+    cases h
+  · have hn : (H.takeWhile (stores g R)).length < d := by omega
+    have hnl : (H.takeWhile (stores g R)).length < H.length := by omega
+    have hy := List.getElem?_eq_getElem hnl
+    rw [walkFor_incomplete g R d H x rest k _ hch hH hx hn hy] at h
+    cases h
+    refine ⟨(H.takeWhile (stores g R)).length, ?_, hn, hy, rfl, getElem?_takeWhile_length _ H _ hy, ?_⟩
+    · subst hH
+      rw [List.takeWhile_cons_of_pos hx]
+      simp
+    · intro i hi
+      have hil : i < H.length := by omega
+      refine ⟨H[i], List.getElem?_eq_getElem hil, ?_⟩
+      have hpre : (H.takeWhile (stores g R))[i]? = some H[i] := by
+        have h1 : (H.takeWhile (stores g R) ++ H.dropWhile (stores g R))[i]? = some H[i] := by
+          rw [List.takeWhile_append_dropWhile]; exact List.getElem?_eq_getElem hil
+        rwa [List.getElem?_append_left hi] at h1
+      have hmem := List.mem_of_getElem? hpre
+      exact (List.all_eq_true.mp (List.all_takeWhile (l := H) (p := stores g R))) _ hmem
+
+/-- **Revno n over the smart server, as the code is.**  For a stacking chain
+that holds the branch's left-hand history in consecutive non-empty segments
+(`chainCovers false`), `RemoteBranch.get_rev_id` answers exactly what
+`BzrBranch.get_rev_id` answers on the complete graph — for every number, in and
+out of range.
+
+PARTIAL: the hypothesis excludes chains in which a repository stores nothing of
+the remaining history (a freshly stacked branch whose tip lives in the fallback
+only): there the code as it is gives up with NoSuchRevision, see
+`remote_get_rev_id_only_in_fallback_witness`; `remote_get_rev_id_fixed` is
+the statement without that exclusion for the variant that goes on in the
+fallbacks. -/
+theorem remote_get_rev_id_partial (b : Branch) (chain : List (List Nat)) (revno : Int)
+    (htip : ∀ t, b.tip = some t → t < b.g.length) (hc : chainCovers false b.g chain b.history = true) :
+    remoteGetRevId false b chain revno = b.getRevId revno :=
+  remoteGetRevId_eq false b chain revno htip hc
+
+/-- the same for the variant that treats "the known revision is not stored here"
+like `history-incomplete`: every chain that holds the history at all -/
+theorem remote_get_rev_id_fixed (b : Branch) (chain : List (List Nat)) (revno : Int)
+    (htip : ∀ t, b.tip = some t → t < b.g.length) (hc : chainCovers true b.g chain b.history = true) :
+    remoteGetRevId true b chain revno = b.getRevId revno :=
+  remoteGetRevId_eq true b chain revno htip hc
+
+/-- **Revno n names the n-th revision of the left-hand history — over the smart
+server on a stacked branch** (either variant, its covering hypothesis). -/
+theorem remote_get_rev_id_nth (fx : Bool) (b : Branch) (chain : List (List Nat)) (n : Nat)
+    (htip : ∀ t, b.tip = some t → t < b.g.length) (hc : chainCovers fx b.g chain b.history = true)
+    (h1 : 1 ≤ n) (h2 : n ≤ b.lastRevno) :
+    ∃ r, b.history.reverse[n - 1]? = some r ∧ remoteGetRevId fx b chain n = .ok (.rev r) := by
+  obtain ⟨r, hr, hget⟩ := getRevId_nth b n h1 h2
+  exact ⟨r, hr, by rw [remoteGetRevId_eq fx b chain n htip hc, hget]⟩
+
+-- non-vacuity: A B D F | G J stacked at F on a branch stacked at B (merges C, E, I aside)
+example : chainCovers false [[], [0], [0], [1, 2], [2], [3, 4], [5], [5, 4], [6, 7]]
+    [[6, 7, 8], [2, 3, 4, 5], [0, 1]]
+    (Branch.history { g := [[], [0], [0], [1, 2], [2], [3, 4], [5], [5, 4], [6, 7]], tip := some 8 }) = true := by decide
+example : ([0, 1, 2, 3, 4, 5, 6, 7] : List Int).map (fun n => remoteGetRevId false
+      { g := [[], [0], [0], [1, 2], [2], [3, 4], [5], [5, 4], [6, 7]], tip := some 8 }
+      [[6, 7, 8], [2, 3, 4, 5], [0, 1]] n) =
+    [.ok .null, .ok (.rev 0), .ok (.rev 1), .ok (.rev 3), .ok (.rev 5), .ok (.rev 6), .ok (.rev 8),
+     .error .revnoOutOfBounds] := by decide
+
+/-- three revisions in a line -/
+def freshlyStacked : Branch := { g := [[], [0], [1]], tip := some 2 }
+
+/-- **Witness (finding `remote-stacked-known-revision-only-in-fallback`).**  A
+freshly stacked branch — three revisions, all of them in the fallback, none in
+the stacked repository: the chain holds the whole history (`chainCovers true`),
+the branch opened locally answers, the code as it is answers NoSuchRevision
+over the smart server, the fixed variant answers. -/
+theorem remote_get_rev_id_only_in_fallback_witness :
+    chainCovers true freshlyStacked.g [[], [0, 1, 2]] freshlyStacked.history = true ∧
+      chainCovers false freshlyStacked.g [[], [0, 1, 2]] freshlyStacked.history = false ∧
+      freshlyStacked.getRevId 1 = .ok (.rev 0) ∧
+      remoteGetRevId false freshlyStacked [[], [0, 1, 2]] 1 = .error .noSuchRevision ∧
+      remoteGetRevId true freshlyStacked [[], [0, 1, 2]] 1 = .ok (.rev 0) := by decide
+
+theorem answer_ok_inj {α : Type} {a c : α} (h : (Answer.ok a : Answer α) = .ok c) : a = c := by cases h; rfl
+
+/-- **Identifier → dotted number over the smart server is refused or right**:
+whatever repository the server looks into, an answer it gives is the answer of
+the branch opened with the complete graph. -/
+theorem remote_dotted_sound (b : Branch) (R : List Nat) (id : RevId) (d : List Int)
+    (h : remoteRevIdToDotted b R id = .ok d) : b.revIdToDotted id = .ok d := by
+  unfold remoteRevIdToDotted serverRevIdToDotted at h
+  split at h
+  · cases h; rfl
+  · rename_i hnn
+    split at h
+    · rename_i i hw
+      cases h
+      obtain ⟨r, hr, _, hidx⟩ := serverWalk_found b.g R id b.history 0 i hw
+      subst hr
+      simp only [Nat.sub_zero] at hidx
+      simp [Branch.revIdToDotted, Branch.revisionIdToRevno, hidx]
+    · cases h
+    · rename_i hw
+      split at h
+      · cases h
+      · rename_i m hm
+        split at h
+        · split at h
+          · rename_i r
+            have hnot := serverWalk_ended b.g R (.rev r) b.history 0 hw r rfl
+            have hidx : b.history.idxOf? r = none := List.idxOf?_eq_none_iff.mpr hnot
+            split at h
+            · rename_i dd hl
+              cases h
+              simp [Branch.revIdToDotted, Branch.revisionIdToRevno, hidx, hm, hl, bind, Except.bind, pure, Except.pure]
+            · cases h
+          · cases h
+        · cases h
+
+/-- **Identifier → revno over the smart server is refused or right.** -/
+theorem remote_revno_sound (b : Branch) (t : Nat) (hw : wf b.g = true) (htip : b.tip = some t)
+    (ht : t < b.g.length) (hc : mainlineClean b = true) (R : List Nat) (id : RevId) (k : Int)
+    (h : remoteRevIdToRevno b R id = .ok k) : b.revisionIdToRevno id = .ok k := by
+  unfold remoteRevIdToRevno at h
+  split at h
+  · rename_i n hs
+    cases h
+    have hd := remote_dotted_sound b R id [k] hs
+    unfold Branch.revIdToDotted at hd
+    split at hd
+    · rename_i n' hn'
+      cases hd
+      exact hn'
+    · rename_i e he
+      split at hd
+      · rename_i r
+        obtain ⟨m, hm, _⟩ := revno_map_bijection b t hw htip ht
+        have hcoh := mainlineCoherent_of_clean b t hw htip ht hc m hm
+        simp only [hm, bind, Except.bind, pure, Except.pure] at hd
+        split at hd
+        · rename_i dr hdr
+          have heq : dr.map Int.ofNat = [k] := Except.ok.inj hd
+          have hmem := mem_of_lookup m r dr hdr
+          have := (List.all_eq_true.mp hcoh) (r, dr) hmem
+          simp only [he] at this
+          have hlen : (dr.map Int.ofNat).length = 1 := by rw [heq]; rfl
+          simp at this
+          simp at hlen
+          exact absurd hlen this
+        · cases hd
+      · split at hd <;> cases hd
+  · cases h
+  · cases h
+  · cases h
+
+/-- **… and it is not refused for the mainline revisions the stacked repository
+stores itself** (contiguously from the tip): there the server answers exactly
+what the local branch answers. -/
+theorem remote_revno_answers_own (b : Branch) (R : List Nat) (r : Nat)
+    (h : r ∈ b.history.takeWhile (stores b.g R)) :
+    ∃ k, b.revisionIdToRevno (.rev r) = .ok k ∧ remoteRevIdToRevno b R (.rev r) = .ok k := by
+  obtain ⟨i, hi, hwalk⟩ := serverWalk_own b.g R r b.history 0 h
+  refine ⟨(b.lastRevno : Int) - i, ?_, ?_⟩
+  · simp [Branch.revisionIdToRevno, hi]
+  · simp [remoteRevIdToRevno, serverRevIdToDotted, hwalk]
+
+example : remoteRevIdToRevno { g := [[], [0], [1], [2]], tip := some 3 } [2, 3] (.rev 2) = .ok 3 := by decide
+example : (match remoteRevIdToRevno { g := [[], [0], [1], [2]], tip := some 3 } [2, 3] (.rev 0) with
+    | .refused => true | _ => false) = true := by decide
+
 /-! ## iteration -/
 
 /-- **Whatever start, stop, rule and direction: the result is a sub-sequence of
@@ -525,6 +802,47 @@ theorem iter_exclude_include (b : Branch) (start : Option RevId) (l : List MS) (
   simp only [applyStop]
   rw [takeThrough_eq, hfind]
   rfl
+
+/-- **Without start and stop, iteration lists the whole ancestry of the tip,
+every revision once, in merge-sorted order** (whatever rule is named). -/
+theorem iter_all (b : Branch) (t : Nat) (hw : wf b.g = true) (htip : b.tip = some t) (ht : t < b.g.length)
+    (rule : StopRule) :
+    ∃ ms, b.iterMergeSorted none none rule false = .ok ms ∧ b.mergeSorted = .ok ms ∧
+      (ms.map (·.rev)).Nodup ∧ ∀ x, x ∈ ms.map (·.rev) ↔ Reach b.g t x := by
+  obtain ⟨ms, hms⟩ := mergeSort_total b.g t hw ht
+  obtain ⟨e, rest, hcons, _, hdepth⟩ := mergeSort_tip_first b.g t ms hw ht hms
+  have hsorted : b.mergeSorted = .ok ms := by simp [Branch.mergeSorted, htip, hms]
+  refine ⟨ms, ?_, hsorted, mergeSort_nodup b.g t ms hw ht hms, mergeSort_covers b.g t ms hw ht hms⟩
+  unfold Branch.iterMergeSorted
+  simp only [hsorted, bind, Except.bind, applyStop, pure, Except.pure]
+  rw [hcons]
+  simp [filterStartNonAncestors, hdepth]
+
+theorem filterStartNonAncestors_mem (g : Graph) (l : List MS) (e : MS) (h : e ∈ filterStartNonAncestors g l) : e ∈ l :=
+  (filterStartNonAncestors_sublist g l).subset h
+
+/-- **The `exclude` rule never lists the stop revision** (whatever start and direction). -/
+theorem iter_exclude_omits_stop (b : Branch) (start : Option RevId) (stop : RevId) (fwd : Bool) (out : List MS)
+    (h : b.iterMergeSorted start (some stop) .exclude fwd = .ok out) : ∀ e ∈ out, revIdIs stop e.rev = false := by
+  unfold Branch.iterMergeSorted at h
+  simp only [bind, Except.bind, pure, Except.pure] at h
+  split at h
+  · cases h
+  · rename_i ms hms
+    simp only [applyStop] at h
+    have key : ∀ (L : List MS) (e : MS),
+        e ∈ filterStartNonAncestors b.g (List.takeWhile (fun e => !revIdIs stop e.rev) L) →
+        revIdIs stop e.rev = false := by
+      intro L e he
+      have hm := filterStartNonAncestors_mem _ _ _ he
+      have := (List.all_eq_true.mp (List.all_takeWhile (p := fun e => !revIdIs stop e.rev) (l := L))) e hm
+      simpa using this
+    intro e he
+    cases fwd
+    · simp only [Bool.false_eq_true, if_false] at h
+      cases h; exact key _ e he
+    · simp only [if_true] at h
+      cases h; exact key _ e (List.mem_reverse.mp he)
 
 example : (match Branch.iterMergeSorted { g := [[], [0], [0], [1, 2]], tip := some 3 } none (some (.rev 1)) .include false with
     | .ok l => l.map (·.rev)
